@@ -286,3 +286,67 @@ def tb():
 
 def rng_for(seed, prop_no, shard, *extra):
     return np.random.default_rng(np.random.SeedSequence([int(seed), int(prop_no), int(shard), *[int(e) for e in extra]]))
+
+
+# --------------------------------------------------------------------------- equal values, other containers
+_twin_calls = [0]
+
+
+def twin_rng(seed, advance=0, route=None):
+    """A generator in exactly the state of ``default_rng(seed)`` after ``advance`` draws, reached by another route on
+    every call: built directly, copied with deepcopy, pickled and loaded, its state restored into a generator that was
+    seeded otherwise (a checkpoint), or after children were spawned from it (spawning does not move the stream)."""
+    import copy
+    import pickle
+
+    _twin_calls[0] += 1
+    g = np.random.default_rng(seed)
+    if advance:
+        g.random(advance)
+    route = _twin_calls[0] % 5 if route is None else route
+    if route == 1:
+        return copy.deepcopy(g)
+    if route == 2:
+        return pickle.loads(pickle.dumps(g))
+    if route == 3:
+        h = np.random.default_rng(987654321)
+        h.random(3)
+        h.bit_generator.state = g.bit_generator.state
+        return h
+    if route == 4:
+        g.spawn(2)
+        return g
+    return g
+
+
+DRESSES = ("plain", "readonly", "strided", "reversed", "fortran", "offset")
+
+
+def dress(rng, a, kind=None):
+    """The same values and dtype in another container: a read-only copy, every second element of a bigger buffer, a
+    negatively strided view, column-major storage, a window into a bigger buffer.  Returns (array, kind)."""
+    a = np.asarray(a)
+    kind = kind or str(rng.choice(DRESSES))
+    if a.ndim == 0 or a.shape[0] == 0:
+        kind = "readonly" if kind != "plain" else kind
+    if kind == "readonly":
+        b = a.copy()
+        b.flags.writeable = False
+    elif kind == "strided":
+        big = np.empty((2 * a.shape[0],) + a.shape[1:], dtype=a.dtype)
+        big[::2] = a
+        big[1::2] = a[::-1]
+        b = big[::2]
+    elif kind == "reversed":
+        b = a[::-1].copy()[::-1]
+    elif kind == "fortran":
+        b = np.asfortranarray(a) if a.ndim >= 2 else a[::-1].copy()[::-1]
+    elif kind == "offset":
+        big = np.empty((a.shape[0] + 5,) + a.shape[1:], dtype=a.dtype)
+        big[:3] = a[:1]
+        big[-2:] = a[-1:]
+        big[3:-2] = a
+        b = big[3:-2]
+    else:
+        b = a.copy()
+    return b, kind
